@@ -8,7 +8,8 @@ scalings of forms are exact); a Coefficient used as data is a combination of the
 Typed recipes compose leaves with + - scalar*, explicit FormSum, Action / action(), Adjoint / adjoint(), ZeroBaseForm.
 Oracle: the tensor obtained by walking the object UFL returned (FormSum = weighted sum, Action = contraction of the last
 slot of the left with the first of the right, Adjoint = transpose, ZeroBaseForm = zeros) equals the tensor computed
-from the recipe with numpy; the dimensions of obj.arguments() equal the tensor's shape; every coefficient the tensor
+from the recipe with numpy (for derivatives: the exact derivative of the recipe's tensor, a polynomial in the
+differentiation variable, from 7 samples); the dimensions of obj.arguments() equal the tensor's shape; every coefficient the tensor
 depends on is reported by obj.coefficients().
 """
 
@@ -24,17 +25,31 @@ RULE = (
     "Hypothesis: typed recipes of depth <= 4 over Matrix, Cofunction, bilinear/linear/argument-free Forms from templates "
     "with coefficient data, ZeroBaseForm; weighted sums through + - scalar* and through explicit FormSum((c, w), ...) incl. "
     "nested sums, repeated components and cancelling weights; Action with Coefficients on either side, Action of sums, "
-    "action()/adjoint() function forms, Adjoint of Adjoint, Adjoint of sums. non-trivial = the recipe contains at least "
+    "action()/adjoint() function forms, Adjoint of Adjoint, Adjoint of sums; in a third of the cases the composition is "
+    "also differentiated (expand_derivatives(derivative(.))) w.r.t. a data coefficient in the direction of a coefficient "
+    "or a new argument. non-trivial = the recipe contains at least "
     "two composition nodes, one of them a sum with a weight different from 1 or an Action/Adjoint of a sum, and the "
     "tensor is non-zero; distinct = distinct recipe."
 )
 ASSUMPTIONS = ["real data (adjoint = transpose)", "forms are assembled with the harness' linear functional; leaves are random arrays"]
 BUDGET = {"quick": {"examples": 2500, "seconds": 70}, "thorough": {"examples": 80000, "seconds": 1500}}
-LABEL_FLOORS = {"quick": {"formsum": 800, "action": 800, "adjoint": 400, "explicit-formsum": 250}}
+LABEL_FLOORS = {"quick": {"derivative-of-sum": 120, "formsum": 800, "action": 800, "adjoint": 400, "explicit-formsum": 250}}
 CASE_TIMEOUT = {"quick": 30, "thorough": 60}
 
 DIMS = [2, 3, 2]
 WEIGHTS = [1, 1, 2, -1, 3, 0.5, -2]
+
+
+def coefs_in(r, acc=None):
+    acc = [] if acc is None else acc
+    if isinstance(r, list):
+        if len(r) == 3 and r[0] == "coef":
+            if r not in acc:
+                acc.append(r)
+        else:
+            for x in r:
+                coefs_in(x, acc)
+    return acc
 
 
 @st.composite
@@ -112,7 +127,38 @@ def cases(draw, tier):
         return ["coef_left", u, gen((j,), d)]
 
     t = draw(st.sampled_from([(0, 1), (1, 1), (2, 0), (0,), (1,), (2,), ()]))
-    return {"recipe": gen(t, draw(st.integers(2, 4))), "type": list(t), "env_seed": draw(st.integers(0, 10**6))}
+    recipe = gen(t, draw(st.integers(2, 4)))
+    deriv = None
+    if draw(st.integers(0, 5)) == 0:
+        # the compositions derivative() supports beyond plain forms: weighted sums of scalars <c_j, u_k> (Action of a
+        # cofunction or a one-form with a coefficient), argument-free forms, nested sums; w.r.t. one of the u_k
+        def friendly(depth):
+            comps = []
+            for _ in range(draw(st.integers(2, 4))):
+                kind = draw(st.sampled_from(["act", "act", "act", "actf", "form0", "nest"]))
+                j = draw(st.integers(0, 2))
+                if kind == "act":
+                    x = ["action", ["cofunction", j, draw(st.integers(0, 1))], ["coef", j, draw(st.integers(0, 1))]]
+                elif kind == "actf":
+                    x = ["action", ["form1", j, draw(st.integers(0, 2))], ["coef", j, draw(st.integers(0, 1))]]
+                elif kind == "nest" and depth > 0:
+                    x = friendly(depth - 1)
+                else:
+                    x = ["form0", draw(st.integers(0, 1))]
+                comps.append([weight(), x])
+            return [draw(st.sampled_from(["sum", "fsum"])), comps]
+
+        recipe = friendly(1)
+        t = ()
+        used = coefs_in(recipe)
+        deriv = {"wrt": draw(st.sampled_from(used)) if used else ["f0"], "dir": draw(st.sampled_from(["arg", "arg", "arg", "coef"]))}
+    elif draw(st.integers(0, 2)) == 0:
+        # derivative of the composition w.r.t. a data coefficient (one used as an Action operand, or f0 inside the
+        # forms), in the direction of a given coefficient or of a new argument
+        used = coefs_in(recipe)
+        wrt = draw(st.sampled_from(used + [["f0"]])) if used else ["f0"]
+        deriv = {"wrt": wrt, "dir": draw(st.sampled_from(["coef", "coef", "arg"]))}
+    return {"recipe": recipe, "type": list(t), "derivative": deriv, "env_seed": draw(st.integers(0, 10**6))}
 
 
 def strategy(tier):
@@ -293,11 +339,98 @@ class Model:
         if isinstance(o, Adjoint):
             return self.evaluate(o.form()).T
         if isinstance(o, Action):
+            from ufl.classes import Argument, Coargument
+
             left, right = o.left(), o.right()
-            L = self.coefvec[repr(left)][1] if isinstance(left, Coefficient) else self.evaluate(left)
-            R = self.coefvec[repr(right)][1] if isinstance(right, Coefficient) else self.evaluate(right)
+
+            def operand(x):
+                if isinstance(x, Coefficient):
+                    return self.coefvec[repr(x)][1]
+                if isinstance(x, Coargument):
+                    return np.eye(DIMS[self.V.index(x.ufl_function_space().dual())])
+                if isinstance(x, Argument):
+                    return np.eye(DIMS[self.V.index(x.ufl_function_space())])
+                return self.evaluate(x)
+
+            L, R = operand(left), operand(right)
             return np.tensordot(L, R, axes=([L.ndim - 1], [0]))
         raise Discard("unsupported object in the result: " + type(o).__name__)
+
+
+def check_derivative(M, case, obj):
+    """expand_derivatives(derivative(obj, w, direction)) against the derivative of the recipe's tensor, which is a
+    polynomial of degree <= 6 in the parameter s of w + s*dw: exact from 7 samples."""
+    import ufl
+    from ufl.algorithms import expand_derivatives
+
+    from vf.props.valuecommon import exc_bucket
+
+    d = case["derivative"]
+    if isinstance(obj, (int, float)):
+        raise Discard("the composition folded to a number")
+    if d["wrt"] == ["f0"]:
+        w = M.f_data[0]
+        j = 0
+        base = M.f_arrays[repr(w)]
+        dirs = [M.basis[0][a] for a in range(DIMS[0])]
+
+        def setw(arr):
+            M.f_arrays[repr(w)] = arr
+    else:
+        w = M.coef(d["wrt"][1], d["wrt"][2])
+        j = d["wrt"][1]
+        base = M.coefvec[repr(w)][1]
+        dirs = [np.eye(DIMS[j])[a] for a in range(DIMS[j])]
+
+        def setw(vec):
+            M.coefvec[repr(w)] = (j, vec)
+
+    def tensor_derivative(direction):
+        ss = np.arange(-3, 4)
+        vals = []
+        for s_ in ss:
+            setw(base + s_ * direction)
+            vals.append(np.asarray(M.build(case["recipe"])[1], dtype=float))
+        setw(base)
+        V = np.vander(ss.astype(float), 7, increasing=True)
+        coef = np.linalg.solve(V, np.stack([v.ravel() for v in vals]))
+        return coef[1].reshape(vals[0].shape)
+
+    if d["dir"] == "coef":
+        dw = ufl.Coefficient(M.V[j])
+        mix = M.rng.uniform(-1, 1, len(dirs))
+        direction = sum(c * x for c, x in zip(mix, dirs))
+        if d["wrt"] == ["f0"]:
+            M.f_arrays[repr(dw)] = direction
+        else:
+            M.coefvec[repr(dw)] = (j, direction)
+        exp = tensor_derivative(direction)
+        args_d = (dw,)
+    else:
+        exp = np.stack([tensor_derivative(x) for x in dirs], axis=-1)
+        args_d = ()
+    try:
+        D = expand_derivatives(ufl.derivative(obj, w, *args_d))
+    except RecursionError:
+        raise
+    except NotImplementedError as ex:
+        raise Discard("derivative not implemented: " + str(ex)[:40])
+    except Exception as ex:
+        # derivative() supports a narrow set of compositions (FormSum of supported parts, Action with a one-form on the
+        # left and an Argument direction, ...); outside it raises assorted errors -- counted, not reported (DESIGN 11)
+        raise Discard("derivative raised " + type(ex).__name__ + "@" + exc_bucket(ex)[-40:])
+    got = np.asarray(M.evaluate(D), dtype=float)
+    scale = max(1.0, float(np.max(np.abs(exp), initial=0)))
+    if np.max(np.abs(exp), initial=0) <= 1e-10 * scale:
+        if np.max(np.abs(got), initial=0) > 1e-9:
+            raise Violation(f"the derivative must vanish but ufl's result denotes {np.ravel(got)[:4]}", {"kind": "derivative-value"})
+        return False
+    if got.shape != exp.shape:
+        raise Violation(f"the derivative ufl returned denotes a tensor of shape {got.shape}, expected {exp.shape}", {"kind": "derivative-shape"})
+    if not np.allclose(got, exp, rtol=1e-7, atol=1e-9 * scale):
+        raise Violation(f"the derivative ufl returned denotes {np.ravel(got)[:4]} but the derivative of the composition is {np.ravel(exp)[:4]}",
+                        {"kind": "derivative-value"})
+    return True
 
 
 def count_nodes(r, acc):
@@ -354,6 +487,11 @@ def check_case(case):
                         raise Violation("the tensor depends on a coefficient that coefficients() does not report", {"kind": "coefficients"})
     acc = count_nodes(case["recipe"], {})
     labels = []
+    if case.get("derivative"):
+        if check_derivative(M, case, obj):
+            labels.append("derivative:" + case["derivative"]["dir"])
+            if acc.get("sum") or acc.get("fsum"):
+                labels.append("derivative-of-sum")
     if acc.get("sum") or acc.get("fsum"):
         labels.append("formsum")
     if acc.get("fsum"):
